@@ -55,7 +55,18 @@ func c16Count(maxLen int) int64 {
 }
 
 // c16Long is the deterministic long family.
+var c16LongCache []string
+
 func c16Long() []string {
+	if c16LongCache != nil {
+		return c16LongCache
+	}
+	out := c16LongBuild()
+	c16LongCache = out
+	return out
+}
+
+func c16LongBuild() []string {
 	var out []string
 	for _, p := range []string{"stun:", "turns:"} {
 		for _, s := range c16Sigma {
@@ -112,6 +123,51 @@ var c16Literals = []string{
 	"stun:[EXAMPLE]:3478",
 }
 
+// Slot family: an otherwise valid URI with one component replaced by every string of at most 4 tokens from a set
+// that reaches what the symbol alphabet cannot within its length bound: percent escapes that decode to invalid
+// UTF-8 or to letters, raw invalid bytes, letters whose lower-case form is longer than they are, upper case,
+// numbers beyond 64 bits.
+var c16Tokens = []string{"%a0", "%FF", "%41", "\xff", "\u023a", "\u00e9", "U", "d", "p", "%", "=", "&", "0", "99999999999999999999", "-", "[", ":"}
+var c16Templates = [][2]string{
+	{"turn:h?transport=", ""},
+	{"turns:h:1?transport=", ""},
+	{"turn:h?", "=udp"},
+	{"turn:", ":3478?transport=udp"},
+	{"stun:h:", ""},
+	{"", ":h:1"},
+	{"turn:[", "]:1"},
+}
+
+const c16SlotLen = 4
+
+func c16SlotCount() int64 {
+	n, cnt, total := int64(len(c16Tokens)), int64(1), int64(0)
+	for l := 0; l <= c16SlotLen; l++ {
+		total += cnt
+		cnt *= n
+	}
+	return total * int64(len(c16Templates))
+}
+
+func c16SlotItem(i int64) string {
+	per := c16SlotCount() / int64(len(c16Templates))
+	t := c16Templates[i/per]
+	idx := i % per
+	n := int64(len(c16Tokens))
+	l, cnt := 0, int64(1)
+	for idx >= cnt {
+		idx -= cnt
+		cnt *= n
+		l++
+	}
+	toks := make([]string, l)
+	for k := l - 1; k >= 0; k-- {
+		toks[k] = c16Tokens[idx%n]
+		idx /= n
+	}
+	return t[0] + strings.Join(toks, "") + t[1]
+}
+
 // c16Item maps a global item index to the string to parse.
 // Items [0, P*count) are prefix-major exhaustive strings, then the long family.
 func c16Item(i int64, maxLen int) string {
@@ -129,11 +185,15 @@ func c16Item(i int64, maxLen int) string {
 	if j < int64(len(c16Literals)) {
 		return c16Literals[j] // the constant itself
 	}
-	return strings.Clone(c16Literals[j-int64(len(c16Literals))]) // and a heap copy of it
+	j -= int64(len(c16Literals))
+	if j < int64(len(c16Literals)) {
+		return strings.Clone(c16Literals[j]) // and a heap copy of it
+	}
+	return c16SlotItem(j - int64(len(c16Literals)))
 }
 
 func c16Total(maxLen int) int64 {
-	return c16Count(maxLen)*int64(len(c16Prefixes)) + int64(len(c16Long())) + 2*int64(len(c16Literals))
+	return c16Count(maxLen)*int64(len(c16Prefixes)) + int64(len(c16Long())) + 2*int64(len(c16Literals)) + c16SlotCount()
 }
 
 // uriInvariants checks what C16/C17 demand of any single ParseURI result.
